@@ -669,7 +669,7 @@ class C20(object):
     rule = ("one run = (kernel from the pyf, arguments drawn to satisfy its documented preconditions with boundary "
             "emphasis, team 1..32, strategy, allocator knobs incl. tiny initial disjoint-set capacity and moving "
             "realloc) executed twice with complementary garbage in outputs/work/stacks/heap; distinct = distinct "
-            "(kernel, argument digest, team); non-trivial = the kernel executed at least one checked access; 30 % of the runs repeat the call through the generated f2py wrapper with guard-padded arrays, a tenth run 2-4 concurrent caller threads for the kernels the pyf declares threadsafe")
+            "(kernel, argument digest, team); non-trivial = the kernel executed at least one checked access; 30 % of the runs repeat the call through the generated f2py wrapper with guard-padded arrays, a tenth run 2-4 concurrent caller threads for the kernels the pyf declares threadsafe; every call on a team of 2 or more is repeated under a second interleaving of the same team; 3 % of the runs draw teams of 65..256")
     components = {"real": enginea.COMPONENTS_REAL + ["every function exported by _cImageD11.pyf (machine code)"],
                   "stub": enginea.COMPONENTS_STUB}
     assumptions = ["bounds are exact for registered argument arrays and simulated heap blocks; indexing errors "
